@@ -398,9 +398,10 @@ Fixpoint reload (n : node) : option node :=
       end
   | NBinop mid cname ln rn l r =>
       (* CompoundPrior.from_dict calls cls(left, right): the names found in its frames are left/right
-         (both `right` when the two operands are one object: the left name is then "right") *)
+         (both `right` when the two operands are one object: the left operand is then routed through the
+         `right` property and only the attribute right_ remains) *)
       match reload l, reload r with
-      | Some l', Some r' => Some (NBinop mid cname (if same_prior l r then "right" else "left_") "right_" l' r')
+      | Some l', Some r' => Some (NBinop mid cname (if same_prior l r then "right_" else "left_") "right_" l' r')
       | _, _ => None
       end
   | NUnop mid cname pn a =>
